@@ -16,6 +16,9 @@ func init() {
 			{Pkg: "wire", Entry: "VerifH17", What: "same with payloads that may be long (300 concrete bytes + one symbolic byte: every length threshold up to 301 is crossed) and the largest line number",
 				Quick: map[string]int{"D": 1, "LONG": 300}, Thorough: map[string]int{"D": 2, "LONG": 300},
 				Witnesses: []string{"long-payload", "source-decorated", "constraint"}},
+			{Pkg: "wire", Entry: "VerifH17", What: "the same error returned by a callback — a statement function in a simple query, a statement function under Execute, the ParseFn — instead of being handed to ErrorCode: the client gets exactly one ErrorResponse with the same fields; the base error may be a standard-library sentinel (context.Canceled, context.DeadlineExceeded, io.EOF, io.ErrUnexpectedEOF, net.ErrClosed) under the handler's decorations",
+				Quick: map[string]int{"D": 1, "VIA": 1, "BASES": 1}, Thorough: map[string]int{"D": 2, "VIA": 1, "BASES": 1},
+				Witnesses: []string{"error-returned-by-a-callback", "sentinel-base", "constraint"}},
 			{Pkg: "wire", Entry: "VerifH17m", What: "decorating never changes the error it is given: after X(X(base,a),b) the inner error still carries a, for every decorator",
 				Quick: map[string]int{}, Witnesses: []string{"detail-twice"}},
 			{Pkg: "wire", Entry: "VerifH17n", What: "nil error -> FATAL / XX000 with a message",
